@@ -691,6 +691,45 @@ theorem process_wide_slots_couple_runs :
           (Flight.St.init flightNested.size))) = true := by
   decide
 
+/-- **no_sync_on_compiled_object.** No struct type that outlives a run has a channel / Mutex /
+    RWMutex / Cond / WaitGroup field, and no function keeps such an object in a local that a closure
+    escaping the function captures (e.g. a closure `compile()` stores in the runner): nothing a run
+    locks or waits on belongs to the compiled object. -/
+theorem no_sync_on_compiled_object : FactsC09.compiledObjectSync = [] := by decide
+
+theorem facts_match_hold : FactsC09.compiledObjectSync = Expected.C09.compiledObjectSync := by decide
+
+/-- is user code of a run entered under a lock of the compiled object, for the code as it is now -/
+def repoObjectLock : Bool := !FactsC09.compiledObjectSync.isEmpty
+
+/-- **No run waits for a run parked in its own user code** – for the code as it is
+    (`compiledObjectSync` from /repo), any number `n` of runs of one compiled object, any run
+    `parked` inside its state generator / state handler / node body / callback (it stays there until
+    every other run has returned) and EVERY interleaving so far: scheduling each of the OTHER runs
+    twice – the parked run does not move – brings every one of them back. -/
+theorem no_run_waits_for_a_parked_run (n parked : Nat) (sched : List Nat) (j : Nat)
+    (hj : j < n) (hne : j ≠ parked) :
+    2 ≤ (Hold.exec repoObjectLock n parked (Hold.othersTwice n parked)
+          (Hold.exec repoObjectLock n parked sched Hold.St.init)).pc j := by
+  have hl : repoObjectLock = false := by decide
+  rw [hl]
+  have h := Hold.exec_advance n parked j hj hne (Hold.othersTwice n parked)
+    (Hold.exec false n parked sched Hold.St.init)
+  rw [Hold.count_othersTwice n parked j hj hne] at h
+  have hm := Hold.exec_mono n parked sched Hold.St.init j
+  omega
+
+/-- **A lock on the compiled object couples the runs (negation witness).**  Run 0 parks inside the
+    locked section; runs 1 and 2, scheduled as often as one likes, never get past their first step
+    (and the parked run waits for them: a deadlock); without the lock the same schedule brings both
+    back while run 0 is still parked. -/
+theorem lock_on_compiled_object_couples_runs :
+    let st := Hold.exec true 3 0 [0, 1, 2, 1, 2, 1, 2, 0] Hold.St.init
+    (st.pc 0 = 1 ∧ st.pc 1 = 0 ∧ st.pc 2 = 0)
+    ∧ (let st' := Hold.exec false 3 0 [0, 1, 2, 1, 2] Hold.St.init
+       st'.pc 0 = 1 ∧ st'.pc 1 = 2 ∧ st'.pc 2 = 2) := by
+  decide
+
 end InFlight
 
 /-! ## run errors (per-run values)
